@@ -83,6 +83,12 @@ def translate():
     app = [n for n in ast.walk(fn) if isinstance(n, ast.Call) and _ns(n.func) == "self._history[current_key].append"]
     need(len(app) == 1, fn, "one append")
     fresh_commit = _copies(app[0].args[0]) and "value=self._current[current_key]" in _ns(fn)
+    # the manager owns exactly three containers (current state, history, the results cache): no other attribute may hold arrays
+    cls_sm = next(n for n in ast.walk(ast.parse(path.read_text())) if isinstance(n, ast.ClassDef) and n.name == "StateManager")
+    attrs = sorted({_ns(t) for m in cls_sm.body if isinstance(m, ast.FunctionDef) for n in ast.walk(m)
+                    if isinstance(n, (ast.Assign, ast.AugAssign, ast.AnnAssign))
+                    for t in (n.targets if isinstance(n, ast.Assign) else [n.target]) if _ns(t).startswith("self.") and "[" not in _ns(t)})
+    need(attrs == ["self._current", "self._history", "self._results_dict", "self.n_dim"], cls_sm, f"attributes of the state manager: {attrs}")
     # a rejected strict commit changes nothing: the validation (and its raise) precedes the loop that appends
     cb = strip_doc(fn.body)
     i_val = next((i for i, x in enumerate(cb) if isinstance(x, ast.If) and _ns(x.test) == "strict"), None)
@@ -478,6 +484,59 @@ def zero_dim_probe(run):
                 run.fail("state-aliased-with-caller", f"get_history({key!r}, index=0) returns the stored 0-d array", ops=["h = get_history(key, index=0); h[()] = 5.0"])
 
 
+def export_probe(run, rng):
+    """Exporting (StateManager.save_state with any exclude list, Sampler-level posterior(return_logw=True) in every option
+    combination) is read-only: the manager's view is the same afterwards, and arrays handed out are not internal ones."""
+    import tempfile
+    import contextlib
+    import io
+    from tempest.state_manager import StateManager
+    sm = StateManager(2)
+    for it in range(3):
+        sm.update_current({"u": np.full((4, 2), 0.1 * it), "x": np.full((4, 2), 1.0 + it), "logl": np.arange(4.0) - it, "beta": 0.3 * it,
+                           "logz": -0.5 * it, "iter": it, "blobs": np.arange(4.0) * it})
+        sm.commit_current_to_history()
+
+    def view():
+        return ({k: (None if v is None else np.array(v).tolist()) for k, v in sm._current.items()},
+                {k: [np.array(a).tolist() for a in lst] for k, lst in sm._history.items()})
+    d = tempfile.mkdtemp(prefix="c17_", dir=run.scratch.dir)
+    for exclude in (None, [], ["blobs"], ["x", "logz"], ["pbar"], ["u", "beta", "logl"]):
+        before = view()
+        with contextlib.redirect_stdout(io.StringIO()):
+            sm.save_state(d + "/s.state", exclude=exclude)
+        run.case(key=("save-state", str(exclude)), nontrivial=True)
+        if view() != before:
+            run.fail("export-changes-state", f"StateManager.save_state(exclude={exclude}) changed the manager's current state / committed history",
+                     ops=["3 commits", f"save_state(path, exclude={exclude})"])
+            break
+        sm.commit_current_to_history()
+        lens = {len(v) for k, v in sm._history.items() if sm._current.get(k) is not None}
+        if len(lens) != 1:
+            run.fail("history-not-append-only", f"after save_state(exclude={exclude}) a commit leaves histories of different lengths", ops=["save_state", "commit"])
+            break
+    # Sampler level: log-weights returned by posterior() in the combinations that do not re-index them
+    from tempest import Sampler
+    s = Sampler(lambda u: 6 * u - 3, lambda x: -0.5 * float(np.sum(x ** 2)), n_dim=2, n_particles=12, clustering=False, random_state=2)
+    s.run(n_total=24, progress=False)
+    for resample in (False, True):
+        for trim in (False, True):
+            ref = s.posterior(resample=resample, trim_importance_weights=trim, return_logw=True)
+            np.random.seed(9)
+            a = s.posterior(resample=resample, trim_importance_weights=trim, return_logw=True)
+            for arr in a:
+                if isinstance(arr, np.ndarray) and arr.size:
+                    arr[...] = 12345.0
+            np.random.seed(9)
+            b = s.posterior(resample=resample, trim_importance_weights=trim, return_logw=True)
+            np.random.seed(9)
+            c = s.posterior(resample=resample, trim_importance_weights=trim, return_logw=True)
+            run.case(key=("posterior-logw-overwrite", resample, trim), nontrivial=True)
+            if any(not np.array_equal(x1, x2) for x1, x2 in zip(b, c)) or any(np.any(np.asarray(x1) == 12345.0) for x1 in b if isinstance(x1, np.ndarray)):
+                run.fail("state-aliased-with-caller", f"overwriting the arrays returned by posterior(resample={resample}, trim_importance_weights={trim}, "
+                         f"return_logw=True) changes what the next call returns", ops=["posterior(...)", "overwrite every returned array", "posterior(...)"])
+
+
 def rejected_commit_probe(run, rng):
     """commit_current_to_history(strict=True) with a required key missing must raise and leave the history exactly as it was;
     after the missing value is supplied, one commit appends exactly one batch per set key."""
@@ -540,6 +599,7 @@ def main(tier, seed):
         nocopy_probe(run)
         rejected_commit_probe(run, rng)
         zero_dim_probe(run)
+        export_probe(run, rng)
     except Exception:
         import traceback
         run.broken.append(("harness-exception", traceback.format_exc()[-1500:]))
